@@ -426,6 +426,7 @@ def conclude(prop, tier, seed, res, wall):
         else:
             new.append(v)
     cov["violation_kinds"] = {k: sum(1 for v in res["violations"] if v["kind"] == k) for k in by_kind}
+    cov["known_findings_matched"] = [dict(kind=k.get("kind"), occurrences=cov["violation_kinds"].get(k.get("kind"), 0)) for k, _ in matched]
     cov["inconclusive_reasons"] = res["inconclusive"]
     if not cov.get("samples"):
         cov["samples"] = [{"note": "no case was completed"}]
